@@ -1,20 +1,233 @@
-(** C20 — lemmas and proofs. *)
-From TU Require Import Base C12_Model C20_Model.
-From Coq Require Import Lia ZifyBool ZifyNat ZifyN Permutation.
+(** C20 — the property-level lemmas about [create], [freq_sum], [save]/[load], [get_closest]. *)
+From TU Require Import Base C12_Model C20_Model C20_Topk C20_Counts C20_SaveLoad C20_Closest.
+From Coq Require Import Lia ZifyBool ZifyNat ZifyN Permutation Sorted QArith.
 Open Scope N_scope.
+Arguments N.add : simpl never. Arguments N.sub : simpl never. Arguments N.mul : simpl never.
+Arguments N.eqb : simpl never. Arguments N.ltb : simpl never. Arguments N.leb : simpl never.
 
-Lemma hpush_length : forall e h, length (hpush e h) = S (length h).
-Proof. induction h as [|x t IH]; cbn [hpush length]; [reflexivity|]. destruct (entry_leb e x); cbn [length]; lia. Qed.
+Lemma nodup_app_r : forall A (a b : list A), NoDup (a ++ b) -> NoDup b.
+Proof. induction a as [|x a IH]; intros b H; [exact H|]. inversion H; subst. apply IH. assumption. Qed.
 
-Lemma topk_zero_l : forall order, topk (Some 0) order = [].
+(** * take *)
+Lemma take_opt_firstn : forall A k (l : list A), take_opt (Some k) l = firstn (N.to_nat k) l.
 Proof.
-  intro order. unfold topk.
-  assert (H : forall l, fold_left (push_bounded (Some 0)) l [] = []).
-  { induction l as [|e l IH]; [reflexivity|]. cbn [fold_left]. unfold push_bounded at 2. cbn [hpush over length tl].
-    replace (0 <? N.of_nat 1) with true by reflexivity. exact IH. }
-  apply H.
+  intros A k l. unfold take_opt. destruct (N.of_nat (length l) <=? k) eqn:E; [|reflexivity].
+  symmetry. apply firstn_all2. lia.
 Qed.
 
-Lemma create_pinned_overflow_l : forall chars cg ms lines arr hp,
-  cfg_bad chars cg = false -> create_pinned chars cg None ms lines arr hp = Overflow.
-Proof. intros. unfold create_pinned. rewrite H. reflexivity. Qed.
+(** * counting *)
+Lemma counts_exact_l : forall (ls : list (list word)) (arr : list cmap),
+  Permutation arr (map count_line ls) ->
+  NoDup (keys (reduce arr)) /\
+  forall w, lookup w (reduce arr) = if memb w (concat ls) then Some (count_tok w (concat ls)) else None.
+Proof. intros ls arr P. split; [eapply reduce_nodup | apply reduce_lookup; exact P]. Qed.
+
+Lemma counts_perm_l : forall ls1 ls2 arr1 arr2,
+  Permutation arr1 (map count_line ls1) -> Permutation arr2 (map count_line ls2) ->
+  Permutation (concat ls1) (concat ls2) ->
+  Permutation (reduce arr1) (reduce arr2) /\ forall w, lookup w (reduce arr1) = lookup w (reduce arr2).
+Proof.
+  intros ls1 ls2 arr1 arr2 P1 P2 Pc. pose proof (reduce_perm _ _ _ _ P1 P2 Pc) as P. split; [exact P|].
+  intro w. destruct (lookup w (reduce arr1)) as [v|] eqn:E.
+  - symmetry. apply in_lookup; [eapply reduce_nodup|]. eapply Permutation_in; [exact P|]. apply lookup_in, E.
+  - destruct (lookup w (reduce arr2)) as [v|] eqn:E2; [|reflexivity].
+    apply lookup_in in E2. eapply Permutation_in in E2; [|apply Permutation_sym, P].
+    apply in_lookup in E2; [congruence|eapply reduce_nodup].
+Qed.
+
+(** * top-k *)
+Definition cap_len (cap : option N) (n : nat) : N :=
+  match cap with None => N.of_nat n | Some k => N.min k (N.of_nat n) end.
+Lemma kmin_cap_len : forall cap n, N.of_nat (kmin cap n) = cap_len cap n.
+Proof. intros [k|] n; unfold kmin, cap_len; [|reflexivity]. destruct (N.of_nat n <=? k) eqn:E; lia. Qed.
+
+Lemma topk_spec_l : forall cap order,
+  (forall order', Permutation order order' -> topk cap order' = topk cap order)
+  /\ StronglySorted ele (topk cap order)
+  /\ (exists omitted, Permutation (omitted ++ topk cap order) order
+        /\ forall x y, In x omitted -> In y (topk cap order) -> entry_leb x y = true /\ fst x <= fst y)
+  /\ N.of_nat (length (topk cap order)) = cap_len cap (length order)
+  /\ (cap = None -> Permutation (topk cap order) order)
+  /\ (cap = Some 0 -> topk cap order = []).
+Proof.
+  intros cap order. split; [|split; [|split; [|split; [|split]]]].
+  - intros order' P. symmetry. apply topk_perm_eq, P.
+  - apply topk_sorted.
+  - exists (omitted cap order). split; [apply topk_split|]. intros x y Hx Hy.
+    pose proof (topk_omitted_le cap order x y Hx Hy) as H. split; [exact H|apply entry_leb_freq, H].
+  - rewrite topk_length. apply kmin_cap_len.
+  - intros ->. rewrite topk_none. apply isort_perm.
+  - intros ->. apply topk_zero_l.
+Qed.
+
+(** * create *)
+Section Create.
+  Variables (chars : bool) (cg : N) (max_size max_seq : option N) (lines : list linfo).
+  Let toks := all_tokens chars cg max_seq lines.
+  Let ls := map (line_tokens chars (N.to_nat cg)) (take_opt max_seq lines).
+
+  Lemma toks_concat : toks = concat ls.
+  Proof. unfold toks, ls, all_tokens. apply flat_map_concat_map. Qed.
+
+  (** the reducer's table in [create] *)
+  Definition table (arr : list nat) : cmap :=
+    reduce (permute arr (map (fun l => count_line (line_tokens chars (N.to_nat cg) l)) (take_opt max_seq lines))).
+
+  Lemma table_arr : forall arr,
+    Permutation (permute arr (map (fun l => count_line (line_tokens chars (N.to_nat cg) l)) (take_opt max_seq lines)))
+                (map count_line ls).
+  Proof. intro arr. unfold ls. rewrite map_map. apply permute_perm. Qed.
+
+  Lemma create_ok : forall arr hp, cfg_bad chars cg = false ->
+    create chars cg max_size max_seq lines arr hp = Ok (map swap_e (topk max_size (map swap_d (table arr)))).
+  Proof.
+    intros arr hp Hb. unfold create. rewrite Hb. fold (table arr). f_equal. f_equal.
+    apply topk_perm_eq, permute_perm.
+  Qed.
+
+  Lemma create_bad : forall arr hp, cfg_bad chars cg = true ->
+    create chars cg max_size max_seq lines arr hp = ErrCfg.
+  Proof. intros. unfold create. rewrite H. reflexivity. Qed.
+
+  Lemma create_no_overflow_l : forall arr hp, create chars cg max_size max_seq lines arr hp <> Overflow.
+  Proof. intros arr hp. unfold create. destruct (cfg_bad chars cg); discriminate. Qed.
+
+  (** any two schedules (arrival order at the reducer, iteration order of the map) give the same dictionary *)
+  Lemma create_schedule_free_l : forall arr hp arr' hp',
+    create chars cg max_size max_seq lines arr hp = create chars cg max_size max_seq lines arr' hp'.
+  Proof.
+    intros arr hp arr' hp'. destruct (cfg_bad chars cg) eqn:Hb.
+    - rewrite !create_bad by exact Hb. reflexivity.
+    - rewrite !create_ok by exact Hb. f_equal. f_equal. apply topk_perm_eq. apply Permutation_map.
+      unfold table. eapply reduce_perm; try apply table_arr. apply Permutation_refl.
+  Qed.
+
+  Lemma swap_e_d : forall e, swap_e (swap_d e) = e.
+  Proof. intros [a b]. reflexivity. Qed.
+  Lemma swap_d_e : forall e, swap_d (swap_e e) = e.
+  Proof. intros [a b]. reflexivity. Qed.
+  Lemma map_swap_e_d : forall l, map swap_e (map swap_d l) = l.
+  Proof. intro l. rewrite map_map. rewrite <- (map_id l) at 2. apply map_ext, swap_e_d. Qed.
+  Lemma map_swap_d_e : forall l, map swap_d (map swap_e l) = l.
+  Proof. intro l. rewrite map_map. rewrite <- (map_id l) at 2. apply map_ext, swap_d_e. Qed.
+
+  Variables (arr hp : list nat) (d : dict).
+  Hypothesis Hc : create chars cg max_size max_seq lines arr hp = Ok d.
+
+  Lemma Hgood : cfg_bad chars cg = false.
+  Proof. destruct (cfg_bad chars cg) eqn:E; [|reflexivity]. rewrite create_bad in Hc by exact E. discriminate. Qed.
+  Lemma d_eq : d = map swap_e (topk max_size (map swap_d (table arr))).
+  Proof. rewrite (create_ok arr hp Hgood) in Hc. injection Hc as <-. reflexivity. Qed.
+
+  Let T := table arr.
+  Let om := map swap_e (omitted max_size (map swap_d T)).
+
+  Lemma d_split : Permutation (om ++ d) T.
+  Proof.
+    unfold om. rewrite d_eq, <- map_app. fold T.
+    eapply perm_trans; [apply Permutation_map, topk_split|]. rewrite map_swap_e_d. apply Permutation_refl.
+  Qed.
+  Lemma d_incl : forall e, In e d -> In e T.
+  Proof. intros e H. eapply Permutation_in; [apply d_split|]. apply in_or_app. right. exact H. Qed.
+  Lemma T_nodup : NoDup (keys T).
+  Proof. unfold T, table. eapply reduce_nodup. Qed.
+
+  Lemma create_nodup : NoDup (keys d).
+  Proof.
+    pose proof T_nodup as N. unfold keys in *.
+    eapply Permutation_NoDup in N; [|apply Permutation_map, Permutation_sym, d_split].
+    rewrite map_app in N. apply nodup_app_r in N. exact N.
+  Qed.
+
+  (** every entry is the exact, positive number of occurrences among the counted lines *)
+  Lemma create_counts : forall w f, In (w, f) d -> f = count_tok w toks /\ 0 < f.
+  Proof.
+    intros w f H. apply d_incl in H. unfold T, table in H. rewrite toks_concat.
+    eapply reduce_entry; [apply table_arr|exact H].
+  Qed.
+
+  (** a token is in the table iff it occurs *)
+  Lemma T_keys : forall w, In w (keys T) <-> In w toks.
+  Proof. intro w. unfold T, table. rewrite toks_concat. eapply reduce_keys. apply table_arr. Qed.
+
+  (** an omitted token is not more frequent than any kept entry (and is smaller in the heap order) *)
+  Lemma create_omitted : forall w, In w toks -> ~ In w (keys d) ->
+    forall w' f', In (w', f') d ->
+      entry_leb (count_tok w toks, w) (f', w') = true /\ count_tok w toks <= f'.
+  Proof.
+    intros w Hw Hn w' f' Hd.
+    apply T_keys in Hw. unfold keys in Hw. apply in_map_iff in Hw as [[k v] [Ek Hin]]. cbn [fst] in Ek. subst k.
+    assert (Hv : v = count_tok w toks).
+    { unfold T, table in Hin. rewrite toks_concat. eapply reduce_entry; [apply table_arr|exact Hin]. }
+    eapply Permutation_in in Hin; [|apply Permutation_sym, d_split].
+    apply in_app_or in Hin as [Hin|Hin].
+    - unfold om in Hin. apply in_map_iff in Hin as [[f0 w0] [E0 Hin]]. unfold swap_e in E0. cbn [fst snd] in E0.
+      injection E0 as -> ->.
+      assert (Hk : In (f', w') (topk max_size (map swap_d T))).
+      { rewrite d_eq in Hd. fold T in Hd. apply in_map_iff in Hd as [[f1 w1] [E1 Hd]]. unfold swap_e in E1.
+        cbn [fst snd] in E1. injection E1 as -> ->. exact Hd. }
+      pose proof (topk_omitted_le _ _ _ _ Hin Hk) as L. unfold ele in L. rewrite <- Hv.
+      split; [exact L|]. apply entry_leb_freq in L. exact L.
+    - exfalso. apply Hn. unfold keys. apply in_map_iff. exists (w, v). split; [reflexivity|exact Hin].
+  Qed.
+
+  Lemma dedup_in : forall w l, In w (dedup l) <-> In w l.
+  Proof.
+    intros w l. induction l as [|x t IH]; cbn [dedup]; [tauto|].
+    destruct (memb x t) eqn:E; cbn [In]; rewrite IH.
+    - split; [auto|]. intros [<-|H]; [|exact H].
+      clear -E. induction t as [|y t IH]; cbn [memb] in E; [discriminate|].
+      apply orb_true_iff in E as [E|E]; [left; symmetry; apply bytes_eqb_eq, E|right; apply IH, E].
+    - tauto.
+  Qed.
+  Lemma memb_in : forall w l, memb w l = true <-> In w l.
+  Proof.
+    intros w l. induction l as [|x t IH]; cbn [memb In]; [split; [discriminate|tauto]|].
+    rewrite orb_true_iff, IH, bytes_eqb_eq. intuition.
+  Qed.
+  Lemma dedup_nodup : forall l, NoDup (dedup l).
+  Proof.
+    induction l as [|x t IH]; cbn [dedup]; [constructor|]. destruct (memb x t) eqn:E; [exact IH|].
+    constructor; [|exact IH]. rewrite dedup_in. intro H. apply memb_in in H. congruence.
+  Qed.
+
+  (** the table has one entry per distinct token *)
+  Lemma T_length : length T = length (dedup toks).
+  Proof.
+    rewrite <- (map_length fst T). apply Permutation_length. apply NoDup_Permutation.
+    - apply T_nodup.
+    - apply dedup_nodup.
+    - intro w. rewrite dedup_in. apply T_keys.
+  Qed.
+
+  (** restricted to [max_size] entries; all of them when [max_size] is absent *)
+  Lemma create_length : N.of_nat (length d) = cap_len max_size (length (dedup toks)).
+  Proof.
+    rewrite d_eq, map_length, topk_length, map_length. fold T. rewrite T_length. apply kmin_cap_len.
+  Qed.
+  Lemma create_none_all : max_size = None -> forall w, In w toks -> In w (keys d).
+  Proof.
+    intros Hm w Hw. apply T_keys in Hw. unfold keys in *. eapply Permutation_in; [|exact Hw].
+    apply Permutation_map. rewrite d_eq. fold T. rewrite Hm, topk_none. apply Permutation_sym.
+    eapply perm_trans; [apply Permutation_map, isort_perm|]. rewrite map_swap_e_d. apply Permutation_refl.
+  Qed.
+
+  (** freq_sum *)
+  Lemma freq_sum_counts : freq_sum d = sumN (map (fun w => count_tok w toks) (keys d)).
+  Proof.
+    unfold freq_sum, keys. rewrite map_map. f_equal. apply map_ext_in. intros [w f] H. cbn [fst snd].
+    apply create_counts in H. tauto.
+  Qed.
+  Lemma freq_sum_all : max_size = None -> freq_sum d = N.of_nat (length toks).
+  Proof.
+    intro Hm. unfold freq_sum. rewrite d_eq, Hm, topk_none. fold T.
+    rewrite (sumN_perm _ (map snd T)).
+    - unfold T, table. rewrite toks_concat. eapply reduce_sum. apply table_arr.
+    - apply Permutation_map. eapply perm_trans; [apply Permutation_map, isort_perm|].
+      rewrite map_swap_e_d. apply Permutation_refl.
+  Qed.
+
+  (** the items are listed in ascending (freq, word) order *)
+  Lemma create_sorted : StronglySorted ele (map swap_d d).
+  Proof. rewrite d_eq, map_swap_d_e. apply topk_sorted. Qed.
+End Create.
